@@ -878,6 +878,51 @@ example :
     ruleMatch (.mask [42, 46, 98, 46, 101]) (some [120, 46, 98, 46, 101, 58, 56]) = false ∧
     ruleMatch (.mask [42, 46, 98, 46, 101]) (some [120, 10, 46, 98, 46, 101]) = false := by decide +kernel
 
+def isOk {α} (e : Except Err α) : Bool := match e with | .ok _ => true | .error _ => false
+
+/-! ## frozen applications -/
+
+/-- mounting on a frozen application is always refused (and, the result being a value, leaves
+parent and sub-application untouched) -/
+theorem frozen_refuses_mount (fuel : Nat) (t s : Table) (pfx q : Str) (rule : Rule) :
+    isOk (addSubappOn true fuel t pfx q s) = false ∧ isOk (addDomainOn true t rule s) = false := by
+  constructor
+  · unfold addSubappOn; split <;> rfl
+  · rfl
+
+/-- on a frozen router `add_route` can only succeed by adding a route to the last resource; the
+resource list keeps its length, the index and the matched list are untouched -/
+theorem frozen_add_route_keeps_index (rq : List (Str × Str)) (t t' : Table) (m path : Str) (hid : Nat)
+    (h : addRouteOn true rq t m path hid = .ok t') :
+    t'.index = t.index ∧ t'.matched = t.matched ∧ t'.rs.length = t.rs.length := by
+  unfold addRouteOn at h
+  split at h
+  · cases h
+  · next t'' hok =>
+    split at h
+    · cases h
+    · next hre =>
+      injection h with h; subst h
+      have hw : willReuse t path = true := by simpa using hre
+      unfold willReuse at hw
+      unfold addRoute at hok
+      split at hok
+      · cases hok
+      · split at hok
+        · next last hl =>
+          rw [hl] at hw
+          simp only [hw, if_true] at hok
+          split at hok
+          · cases hok
+          · injection hok with hok; subst hok
+            have hne : t.rs ≠ [] := by intro e; simp [e] at hl
+            refine ⟨rfl, rfl, ?_⟩
+            have := List.length_pos_iff.mpr hne
+            show (t.rs.dropLast ++ [_]).length = t.rs.length
+            rw [List.length_append, List.length_dropLast, List.length_singleton]
+            omega
+        · next hn => rw [hn] at hw; cases hw
+
 /-! ## non-vacuity and the findings as kernel-checked facts about the model -/
 
 def GET : Str := [71, 69, 84]
@@ -888,7 +933,6 @@ def POST : Str := [80, 79, 83, 84]
 def rqAX : List (Str × Str) := [([47, 97, 47], [47, 97, 47]), ([], [])]
 
 def okTable (e : Except Err Table) : Table := match e with | .ok t => t | .error _ => Table.empty
-def isOk {α} (e : Except Err α) : Bool := match e with | .ok _ => true | .error _ => false
 def errIs {α} (e : Except Err α) (x : Err) : Bool := match e with | .ok _ => false | .error y => y == x
 
 theorem ok_of_isOk (e : Except Err Table) (h : isOk e = true) : e = .ok (okTable e) := by
